@@ -117,6 +117,15 @@ def add_extras(case, recipe, root, exp, res):
         os.symlink("loop_a", root / "links" / "loop_b")
         os.symlink("..", root / "links" / "up")
         res.cell("extra:symlinks-dangling-and-loops")
+    if case["k"] % 4 == 2:
+        # a FILE.license sibling stands for the file even when it is empty: the file's own header is not looked at
+        (root / "shadowed.py").write_text("# SPDX-FileCopyrightText: 2009 Shadowed\n# SPDX-License-Identifier: LicenseRef-never-read\ns = 1\n")
+        (root / "shadowed.py.license").write_text("")
+        exp["covered"].add("shadowed.py")
+        exp["missing_copyright_info"].add("shadowed.py")
+        exp["missing_licensing_info"].add("shadowed.py")
+        exp["compliant"] = False
+        res.cell("extra:empty-license-sibling")
     provided = [x["id"] for x in recipe["licenses"] if x["id"] in exp["used_licenses"] and x["id"] in trees.spdx_lists()["all"]
                 and not trees.spdx_lists()["all"][x["id"]] and not x.get("noext")]
     if not provided:
